@@ -32,7 +32,7 @@ def value_expr(v):
     return v[2]     # ["str", text, expr-json]
 
 
-def gen_assign(rng, params, mode):
+def gen_assign(rng, params, mode, fnames=()):
     keys = list(params)
     rng.shuffle(keys)
     if mode != "total":
@@ -49,6 +49,12 @@ def gen_assign(rng, params, mode):
             # names assigned in the same call are mentioned more often than fresh ones (crossed assignments)
             pool = others + others + ["z", "t"]
             e = H.gen_expr(rng, pool, 1)
+            if fnames and rng.random() < 0.5:
+                # the assigned value itself calls a user function (the implementation must reach it too, also where the
+                # routine's expression is the bare parameter)
+                f = rng.choice(list(fnames))
+                arg = rng.choice([E.num(rng.randint(1, 5)), E.sym(rng.choice(pool))])
+                e = E.fun(f, arg) if f == "f" else E.fun(f, arg, E.num(rng.randint(1, 3)))
             out.append([k, ["str", E.to_str(e), e]])
         else:
             r = rng.random()
@@ -77,7 +83,8 @@ def build_cases(rng, n, max_depth):
         if not params:
             continue
         mode = rng.choice(["total", "total", "partial", "expr", "expr"])
-        assign = gen_assign(rng, params, mode)
+        fns = [[f, rng.choice(["inc", "sq"]) if f == "f" else "lin2"] for f in rng.sample(H.FUNCS, rng.randint(1, 2))] if rng.random() < 0.4 else None
+        assign = gen_assign(rng, params, mode, [f for f, _ in fns] if fns else ())
         case = {"routine": r, "assign": assign, "mode": mode}
         if len(assign) >= 2:
             perm = list(assign)
@@ -89,8 +96,8 @@ def build_cases(rng, n, max_depth):
         if numeric and len(assign) >= 2:
             k = rng.randint(1, len(assign) - 1)
             case["split"] = [assign[:k], assign[k:]]
-        if rng.random() < 0.4:
-            case["functions"] = [[f, rng.choice(["inc", "sq"]) if f == "f" else "lin2"] for f in rng.sample(H.FUNCS, rng.randint(1, 2))]
+        if fns:
+            case["functions"] = fns
         cases.append(case)
     return cases
 
